@@ -97,9 +97,12 @@ def _servers(scratch, tag=""):
         a.stop()
         b.stop()
         raise blackbox.ToolError(str(errs[0]))
-    # `allshards=false` IS the switch value (engine/sysctrl.go: the value of `allshards` is what is set for all shards)
-    for mod in ("merge", "compen"):
-        st, body = b.ctrl(mod, allshards="false")
+    # `allshards=false` IS the switch value (engine/sysctrl.go: the value of `allshards` is what is set for all shards).
+    # chunk_reader_parallel=1: every query of the layout server gets ONE group cursor, so all series of a query pass through
+    # the same cursor one after the other (reducer / file-cursor state must be reset between series); with the default the
+    # number of series per cursor depends on the resources other queries hold at that moment, i.e. on timing.
+    for mod, kw in (("merge", {"allshards": "false"}), ("compen", {"allshards": "false"}), ("chunk_reader_parallel", {"limit": "1"})):
+        st, body = b.ctrl(mod, **kw)
         if st != 200 or b"success" not in body:
             b.stop()
             a.stop()
